@@ -171,16 +171,16 @@ Proof.
   exact (marshal_idempotent o serial H1 H2 H3 S1 S2 S3 S4 S5 S6).
 Qed.
 
-(* the type characters parse_line knows are exactly the 17 of modelled_type *)
-Lemma badtype_iff : forall o serial t b,
-  parse_line o serial (t :: b) = Err E_BADTYPE <-> modelled_type t = false.
+(* a type character outside the 17 of modelled_type is rejected as ErrBadRType: no record type is
+   left to an unmodelled branch *)
+Lemma unknown_type_rejected : forall o serial t b,
+  modelled_type t = false -> parse_line o serial (t :: b) = Err E_BADTYPE.
 Proof.
-  intros o serial t b. unfold parse_line, modelled_type. cbn [existsb].
-  set (f := fields (t :: b)). clearbody f.
-  repeat match goal with
-  | |- context [t =? ?c] => destruct (N.eqb_spec t c); [subst t|]
-  end.
-Abort.
+  intros o serial t b H. unfold modelled_type in H. cbn [existsb] in H.
+  repeat (apply orb_false_iff in H; let E := fresh "E" in destruct H as [E H]).
+  unfold parse_line. rewrite ?E, ?E0, ?E1, ?E2, ?E3, ?E4, ?E5, ?E6, ?E7, ?E8, ?E9, ?E10, ?E11, ?E12, ?E13, ?E14, ?E15.
+  reflexivity.
+Qed.
 
 (* ------------------------------------------------------------------ the recorded findings are real *)
 (* an oracle that is enough for lines without addresses and without bytes >= 0x80 *)
